@@ -57,7 +57,7 @@ ASSUMPTIONS = [
     "quadratic_approximation=True is only smoke-tested (finite, non-zero, "
     "power-of-two outputs with use_ste=False)",
 ]
-BUDGET_S = {"quick": 70, "thorough": 800}
+BUDGET_S = {"quick": 80, "thorough": 800}
 REQUIRED_LABELS = {
     "quick": ["walk", "scalar_path", "hyp", "smoke", "quantized_po2",
               "quantized_relu_po2", "mode:rnd", "mode:floor", "leaky",
